@@ -5,6 +5,7 @@ import (
 	"go/types"
 	"sort"
 	"strings"
+	"time"
 
 	"golang.org/x/tools/go/ssa"
 )
@@ -155,6 +156,9 @@ func zero(t types.Type) Value {
 	if isReflectValue(t) {
 		return RV{}
 	}
+	if isTimeTime(t) {
+		return Native{time.Time{}}
+	}
 	switch t := t.(type) {
 	case *types.Named, *types.Alias:
 		return zero(t.Underlying())
@@ -290,6 +294,8 @@ func hashKey(v Value) (string, bool) {
 		return "A" + sb.String(), true
 	case Rtype:
 		return "T" + v.t.String(), true
+	case Native:
+		return fmt.Sprintf("N%v", v.v), true
 	case nil:
 		return "nil", true
 	}
